@@ -598,10 +598,10 @@ def rule_scanner(rep: Report, rid_line="C04.line", rid_scan="C18.scan") -> None:
     rep.used_function(fi.qualname)
     selft = ("param", fi.params()[0])
     kw = dict(file=SFILE, line=fi.node.lineno, function=fi.qualname)
-    rep.eq(rid_line, "the line counter starts at 0", const(0), st.ext.get((selft, "line_number")), **kw)
+    rep.eq(rid_line, "the line counter starts at 0", const(0), st.ext.get((selft, N.SCANNER_LINENO)), **kw)
     sios = [n for n, ctx in nf.iter_nodes(tree) if n[0] == "extcall" and n[1] == "io.StringIO"]
     srcp = ("param", fi.params()[1])
-    io_t = st.ext.get((selft, "io"))
+    io_t = st.ext.get((selft, N.SCANNER_IO))
     def sio_ok(t):
         return t is not None and t[0] == "call" and t[1] == "io.StringIO" and t[2] == (srcp,) and (not t[3] or all(k == "newline" and is_const(v, "\n") for k, v in t[3]))
     def alts(t):
@@ -624,16 +624,16 @@ def rule_scanner(rep: Report, rid_line="C04.line", rid_scan="C18.scan") -> None:
     rep.used_function(fi.qualname)
     selft = ("param", fi.params()[0])
     kw = dict(file=SFILE, line=fi.node.lineno, function=fi.qualname)
-    ln = ("attr", selft, "line_number")
+    ln = ("attr", selft, N.SCANNER_LINENO)
     inc = ("binop", "Add", ln, const(1))
-    sets = [n for n, ctx in nf.iter_nodes(tree) if n[0] == "setattr" and n[1] == selft and n[2] == "line_number"]
+    sets = [n for n, ctx in nf.iter_nodes(tree) if n[0] == "setattr" and n[1] == selft and n[2] == N.SCANNER_LINENO]
     rep.ob(rid_line, "each read increments the line counter exactly once, unconditionally", len(sets) == 1 and lin_eq(sets[0][3], inc)
            and not nf.guards_in_ctx([c for n, c in nf.iter_nodes(tree) if n is sets[0]][0]), **kw, expected="self.line_number += 1", found=[fmt(s[3], I) for s in sets])
-    reads = [n for n, ctx in nf.iter_nodes(tree) if n[0] == "mcall" and n[2] == ("attr", selft, "io")]
+    reads = [n for n, ctx in nf.iter_nodes(tree) if n[0] == "mcall" and n[2] == ("attr", selft, N.SCANNER_IO)]
     names = [n[1] for n in reads]
     rep.ob(rid_scan, "each read consumes exactly one physical line with readline() (lines end at line feeds only)", names == ["readline"] and not reads[0][3], **kw,
            expected="line = self.io.readline()", found=names or [n[1] for n, _ in nf.iter_nodes(tree) if n[0] in ("mcall", "extcall")])
-    linev = ("call", ".readline", (("attr", selft, "io"),), ())
+    linev = ("call", ".readline", (("attr", selft, N.SCANNER_IO),), ())
     # the returned value may be one Token or a decision between Tokens (early return at end of input): decide per case
     cases = []
     for a1, tok in nf.decisions(rv) or []:
